@@ -138,7 +138,7 @@ def check_removal_bookkeeping(rep: Rep, pre: str, comp: Competition) -> List[Eve
         e for e in comp.events
         if e.kind == "call" and e.name == "append" and e.target == ("attr", ("attr", comp.graph, "idx_nodes"), "append")
     ]
-    base_guards = facts(comp.loop.guards + ((comp.loop.cond, True),))
+    base_guards = facts(comp.body_guards())
     good = [e for e in appends if e in comp.top and facts(e.guards) == base_guards and e.args == (p,)]
     rep.fn(pre + "IFT-order", fn, "conquest order: idx_nodes.append(p) once per removal, unconditionally",
            len(appends) == 1 and len(good) == 1,
@@ -388,7 +388,7 @@ def check_prim(rep: Rep, pre: str, comp: Competition) -> None:
         return has_guard(e.guards, g_pred) and has_guard(e.guards, g_lab)
 
     def only_benign(e: Event, node: Term) -> bool:
-        base = facts(comp.loop.guards + ((comp.loop.cond, True),))
+        base = facts(comp.body_guards())
         extra = [f for f in facts(e.guards) if f not in base and f not in (g_pred, g_lab)]
         benign = ("cmp", "!=", *sorted([K("PROTOTYPE"), ("attr", node, "status")], key=repr))
         return all(f == benign for f in extra)
@@ -468,7 +468,7 @@ def check_fmin_clustering(rep: Rep, pre: str, comp: Competition, label_field: st
         rt = [e for e in same if e.target == comp.field(i, "root") and e.value == i]
         rep.ev(pre + "CLU-seed-root", ins, len(rt) == 1, "every node starts as its own root")
     # root discovery at removal
-    base_guards = facts(comp.loop.guards + ((comp.loop.cond, True),))
+    base_guards = facts(comp.body_guards())
     g_root = ("cmp", "==", *sorted([K("NIL"), comp.field(p, "pred")], key=repr))
     root_guards = base_guards + (g_root,)
     lifts = [e for e in comp.events if e.kind == "store" and e.target == comp.hcost(p)]
